@@ -55,6 +55,17 @@ func init() {
 		"sync/atomic.AddUint64":   hAtomicAdd(64),
 		"sync/atomic.AddUint32":   hAtomicAdd(32),
 	}
+	for _, bo := range []string{"bigEndian", "littleEndian"} {
+		for _, m := range []string{"Uint16", "Uint32", "Uint64", "PutUint16", "PutUint32", "PutUint64"} {
+			bo, m := bo, m
+			externHandlers["(encoding/binary."+bo+")."+m] = func(fr *Frame, cc *ssa.CallCommon, args []Val, st *State, instr ssa.Instruction) (*State, []Val) {
+				fr.ex.trusted["extern encoding/binary."+bo+"."+m] = true
+				recv := Val{L: []Term{Int(int64(fr.ex.byteOrderTag(bo)))}}
+				st2, res, _ := fr.byteOrder(m, recv, args[1:], st, instr)
+				return st2, res
+			}
+		}
+	}
 }
 
 func hFreshString(fr *Frame, cc *ssa.CallCommon, args []Val, st *State, instr ssa.Instruction) (*State, []Val) {
